@@ -1029,6 +1029,10 @@ func (s *blobStore) FetchReference(ctx context.Context, reference string) (desc 
 	case http.StatusOK: // server does not support seek as `Range` was ignored.
 		if resp.ContentLength == -1 {
 			desc, err = s.Resolve(ctx, reference)
+			if err == nil {
+				// the body returned to the caller comes from this response
+				err = verifyContentDigest(resp, desc.Digest)
+			}
 		} else {
 			desc, err = generateBlobDescriptor(resp, refDigest)
 		}
@@ -1274,6 +1278,10 @@ func (s *manifestStore) FetchReference(ctx context.Context, reference string) (d
 	case http.StatusOK:
 		if resp.ContentLength == -1 {
 			desc, err = s.Resolve(ctx, reference)
+			if err == nil {
+				// the body returned to the caller comes from this response
+				err = verifyContentDigest(resp, desc.Digest)
+			}
 		} else {
 			desc, err = s.generateDescriptor(resp, ref, req.Method)
 		}
